@@ -25,6 +25,7 @@ RULES_DOC["R8"] = "the directed-yield entry points that document ABT_ERR_INV_THR
 RULES_DOC["R9"] = "= C01.R5: a yield-family callback pushes the caller back iff it was not cancelled (a terminated unit is never re-queued)"
 RULES_DOC["X4"] = common.X4_DOC
 RULES_DOC["R10"] = "a copy of *pp_local taken before a call that may resume the caller on another stream (any call that is handed pp_local itself) is not used after that call: the blocking helpers refresh *pp_local, a cached copy still names the old stream"
+RULES_DOC["R12"] = "= C02.R5: every directed switch marks the ULT it switches TO as RUNNING (not the caller): a target that runs while its state still reads BLOCKED can be resumed -- pushed to its pool -- a second time"
 RULES_DOC["R11"] = "ABT_thread_create_to stores the new handle through its out-parameter before it switches to the new ULT (the documented order: the created ULT may read the handle location as soon as it runs)"
 RULES_DOC.update({
     "R1": "= C02.R3: suspend callbacks publish BLOCKED before anything that lets a waker run",
@@ -425,6 +426,33 @@ def rule_R10(P, rep):
                     if cfg.can_reach(F, h, u, avoid_nodes=defs):
                         bad.append("`%s` (a copy of *%s taken at %s) is used at %s after %s was handed %s" %
                                    (v, ppl, F.loc(defs[0]), F.loc(u), F.nodes[h]["fn"], ppl))
+        # the dual: a callee that may move the caller to another stream is handed the address of a local copy; then the
+        # in/out parameter itself is stale unless the copy is written back before *pp_local is used again or the function returns
+        for _b, h in F.calls():
+            G = P.resolve_call(F, F.nodes[h])
+            if G is None:
+                continue
+            for prm, a in zip(G.params, F.nodes[h]["a"]):
+                an = F.nodes[F.strip(a)]
+                if prm["t"].replace(" ", "") != "ABTI_local**" or an.get("k") != "un" or an["op"] != "&":
+                    continue
+                vn = F.nodes[F.strip(an["e"])]
+                if vn.get("k") != "ref" or vn.get("dk") != "var":
+                    continue
+                v = vn["n"]
+                back = [i for _b2, i, lh, rh in F.stores() if rh is not None and canon.expr(F, lh, 0) == "*" + ppl and
+                        F.nodes[F.strip(rh)].get("n") == v]
+                later = [j for j, nd in enumerate(F.nodes) if nd and nd.get("k") == "ref" and nd.get("n") == ppl and
+                         F.block_of(j) is not None and j not in F.descendants(h)]
+                for u in later:
+                    if u in [x for b in back for x in F.descendants(b)]:
+                        continue
+                    if cfg.can_reach(F, h, u, avoid_nodes=back):
+                        bad.append("%s is handed &%s (a local) at %s, then %s is used at %s without `*%s = %s`" %
+                                   (F.nodes[h]["fn"], v, F.loc(h), ppl, F.loc(u), ppl, v))
+                if not back:
+                    bad.append("%s is handed &%s (a local) at %s and the stream it resumes on is never written back to *%s" %
+                               (F.nodes[h]["fn"], v, F.loc(h), ppl))
         rep.ob("R10", "%s: no stale copy of *%s is used after a call that may change it" % (F.name, ppl), not bad,
                "; ".join(sorted(set(bad)))[:500], loc="%s:%d" % (F.file, F.line), site="%s/stale-local" % F.name)
     rep.need(n >= 6, "only %d functions take an ABTI_local ** parameter" % n)
@@ -462,5 +490,6 @@ def run(P, rep, tier):
     rule_R8(P, rep)
     rule_R10(P, rep)
     rule_R11(P, rep)
+    common.borrow(rep, P, C02.rule_R4_R5, "R12", only=("R5",))
     from . import C01
     common.borrow(rep, P, C01.rule_R5, "R9")
